@@ -631,14 +631,11 @@ Proof.
   { destruct md2 as [m|]; [|injection H4 as <- _; exact Hinv3].
     apply bind_ok in H4 as [n3 [Hn3 H4]]. apply bind_ok in H4 as [ex [Hex H4]].
     pose proof Hn3 as Hn30. apply getn_some in Hn30.
+    apply bind_ok in H4 as [all [Hall H4]]. apply bind_ok in H4 as [rs [Hrs H4]].
     revert H4. apply (fold_res_pair_inv (inv None)).
-    - intros acc extra ga na Hacc HF. apply bind_ok in HF as [[gb nb] [-> HF]]. cbv beta iota in HF.
-      specialize (Hacc gb nb eq_refl). apply bind_ok in HF as [rs [Hrs HF]].
-      revert HF. apply (fold_res_pair_inv (inv None)).
-      + intros acc2 r gc nc Hacc2 HF2. apply bind_ok in HF2 as [[gd nd] [-> HF2]]. cbv beta iota in HF2.
-        specialize (Hacc2 gd nd eq_refl). apply bind_ok in HF2 as [[ge ne] [Hrec HF2]]. cbv beta iota in HF2.
-        injection HF2 as <- _. eapply IH; [exact Hacc2|exact Hrec].
-      + intros g0 b0 [= <- _]. exact Hacc.
+    - intros acc2 r gc nc Hacc2 HF2. apply bind_ok in HF2 as [[gd nd] [-> HF2]]. cbv beta iota in HF2.
+      specialize (Hacc2 gd nd eq_refl). apply bind_ok in HF2 as [[ge ne] [Hrec HF2]]. cbv beta iota in HF2.
+      injection HF2 as <- _. eapply IH; [exact Hacc2|exact Hrec].
     - intros g0 b0 [= <- _]. eapply inv_setn_same; [exact Hinv3|exact Hn30|reflexivity|reflexivity|reflexivity]. }
   apply bind_ok in H as [g5 [H5 H]].
   apply bind_ok in H as [n5 [Hn5 H]].
